@@ -22,6 +22,14 @@ def answer (toks : List String) : String :=
   | ["offenders"] => let o := offenders StructC06.effects
       if o.isEmpty then "-" else join o ","
   | ["count"] => toString StructC06.effects.length
+  | ["kclean"] => if kernelCallsClean StructC06.kernels StructC06.kernelCalls then "1" else "0"
+  | ["koffenders"] => let o := kernelOffenders StructC06.kernels StructC06.kernelCalls
+      if o.isEmpty then "-" else join o ","
+  | ["kwritten", k, p] => if paramWritten StructC06.kernels k p then "1" else "0"
+  | ["ctorclean"] =>
+      if ctorAliasesUnedited StructC06.ctorAliases StructC06.fieldEdits then "1" else "0"
+  | ["ctoroffenders"] => let o := ctorOffenders StructC06.ctorAliases StructC06.fieldEdits
+      if o.isEmpty then "-" else join o ","
   | ["run", n, pairs, qs] =>
       showBools (run (mkTable n.toNat! (parsePairs pairs)) 4 State.init (nats qs))
   | _ => "bad-request"
